@@ -11,6 +11,7 @@ import (
 	"github.com/sirupsen/logrus"
 
 	"hop.computer/hop/common"
+	"hop.computer/hop/pkg/verifhook"
 )
 
 // TubeType represents identifier bytes of Tubes.
@@ -95,6 +96,7 @@ func (r *Reliable) initiate(req bool) {
 		defer ticker.Stop()
 	initLoop:
 		for {
+			verifhook.Pause("tubes.Reliable.initiate:loop")
 			r.l.Lock()
 			switch r.tubeState {
 			case initiated:
@@ -130,6 +132,7 @@ func (r *Reliable) initiate(req bool) {
 		return
 	}
 	r.sender.closed.Store(false)
+	verifhook.Yield("tubes.Reliable.initiate:before-send-start")
 	go r.send()
 	r.l.Unlock()
 }
@@ -206,6 +209,7 @@ func (r *Reliable) send() {
 	sendQueue := r.sender.sendQueue                 // +checklocksignore accessing channels is safe
 	prioritySendQueue := r.sender.prioritySendQueue // +checklocksignore accessing channels is safe
 	for sendQueue != nil || prioritySendQueue != nil {
+		verifhook.Pause("tubes.Reliable.send:loop")
 		select {
 		// onTimeout sender
 		case <-r.sender.RetransmitTicker.C: // +checklocksignore accessing channels is safe
@@ -339,6 +343,7 @@ func (r *Reliable) send() {
 
 // receive is called by the muxer for each new packet
 func (r *Reliable) receive(pkt *frame) error {
+	verifhook.Pause("tubes.Reliable.receive:enter")
 	r.l.Lock()
 	defer r.l.Unlock()
 
@@ -447,6 +452,7 @@ func (r *Reliable) enterClosedState() {
 	// Reject every producer before closing sender queues. This remains visible
 	// while the lifecycle lock is released to wait for the sender to drain.
 	r.tubeState = closed
+	verifhook.Note("tubes.Reliable.state", int64(r.id), int64(closed))
 	if r.lastAckTimer != nil {
 		r.lastAckTimer.Stop()
 	}
@@ -454,13 +460,16 @@ func (r *Reliable) enterClosedState() {
 	r.recvWindow.Close()
 	if waitForSender {
 		r.l.Unlock()
+		verifhook.Pause("tubes.Reliable.enterClosedState:unlocked")
 		<-r.sendDone
+		verifhook.Pause("tubes.Reliable.enterClosedState:send-done")
 		r.l.Lock()
 	}
 	close(r.closed)
 }
 
 func (r *Reliable) receiveInitiatePkt(pkt *initiateFrame) error {
+	verifhook.Pause("tubes.Reliable.receiveInitiatePkt:enter")
 	r.l.Lock()
 	defer r.l.Unlock()
 
@@ -573,6 +582,7 @@ func (r *Reliable) ReadMsgUDP(b, oob []byte) (n, oobn, flags int, addr *net.UDPA
 // local sender. It does not wait for sender drain or peer acknowledgement; use
 // WaitForClose for lifecycle completion.
 func (r *Reliable) Close() (err error) {
+	verifhook.Pause("tubes.Reliable.Close:enter")
 	select {
 	case <-r.initDone:
 		break
@@ -599,6 +609,7 @@ func (r *Reliable) Close() (err error) {
 		return io.EOF
 	}
 
+	verifhook.Yield("tubes.Reliable.Close:state-changed")
 	// Cancel all pending read and write operations
 	r.SetReadDeadline(time.Now())
 	r.sender.deadline = time.Now()
